@@ -160,6 +160,14 @@ class Hist:
         self._through(s, "(de %d %d %s)" % (s, j, how), r"\(ok eq\)" if fits else None)
     def info(self, s):
         self._through(s, "(info %d)" % s, r"\(info \d+ x[0-9a-f]{16}\)")
+    def debug(self, s):
+        # `{:?}` of the frozen schema (twice) and the message of a failing serialization (renders a schema node): terminates, same text
+        self._through(s, "(debug %d)" % s, r"\(debug \d{1,5} \d{1,5} x[0-9a-f]{16}\)")
+    def debugpar(self, s):
+        # the same renderings while another thread is parked INSIDE a rendering of the same schema: texts = those of sequential use
+        t = self._t()
+        self.add("(debugpar %d)" % s, "data", ["(borrow %d %d)" % (s, t), "(use %d)" % t, "(use %d)" % t, "(drop %d)" % t], r"\(debugpar eq \d{1,5}\)")
+        # (the interleaving is forced through channels: no need for the additional Miri schedules that free-running `threads` ops get)
     def symborrow(self, s):
         self._through(s, "(symborrow %d)" % s, r"\(symborrow err err\)")
     def threads(self, s, n, m, k, fits=True):
@@ -240,8 +248,11 @@ def gen_freeze_histories(rng, tier):
     h.build(0, []); h.freeze(0, 0)
     h.build(1, [("array", 1)]); h.freeze(1, 1)
     h.build(2, [("array", 0)]); h.freeze(2, 2)                 # unnamed cycle: rejected by the canonical form pass
-    h.build(3, ["int", ("union", [0, 2]), ("union", [0, 1])]); h.freeze(3, 3); h.info(3)   # two unreachable unions referring to each other
-    h.build(4, ["int", ("map", 1)]); h.freeze(4, 4); h.info(4)                              # unreachable self-referential map
+    h.build(3, ["int", ("union", [0, 2]), ("union", [0, 1])]); h.freeze(3, 3); h.info(3); h.debug(3)   # two unreachable unions referring to each other
+    h.build(4, ["int", ("map", 1)]); h.freeze(4, 4); h.info(4); h.debug(4)                              # unreachable self-referential map
+    # cyclic schemas (through records) of several shapes, debug-formatted: the rendering must terminate with a bounded text
+    h.build(5, [("record", "A", [("b", 1), ("l", 3)]), ("record", "B", [("a", 2)]), ("union", [4, 0]), ("array", 0), "null"]); h.freeze(5, 5); h.debug(5); h.debugpar(5)
+    h.build(6, [("map", 1), ("record", "M", [("m", 0), ("u", 2)]), ("union", [3, 1, 0]), "null"]); h.freeze(6, 6); h.debug(6); h.move(6, 7, "box"); h.debug(7)
     out.append(h)
     return out
 
@@ -266,7 +277,8 @@ def gen_handle_histories(rng, tier):
         else: h.build(0, CAT[k]); h.freeze(0, 0)
         h.ser(0, k, 2); h.move(0, 1, "box"); h.de(1, d0, "borrowed"); h.move(1, 2, "vec"); h.ser(2, k, 4); h.move(2, 2, "plain")
         if k == 0: h.symborrow(2)
-        h.arc(2, 3); h.clone(3, 4); h.clone(4, 5); h.drop(3); h.de(4, d1, "owned"); h.move(4, 6, "vec"); h.drop(5); h.ser(6, k, 6); h.info(6)
+        h.debug(2)
+        h.arc(2, 3); h.clone(3, 4); h.clone(4, 5); h.drop(3); h.de(4, d1, "owned"); h.move(4, 6, "vec"); h.drop(5); h.ser(6, k, 6); h.info(6); h.debug(6)
         h.drop(2)                                  # moved-from slot: rejected
         h.drop(6)
         out.append(h)
@@ -314,13 +326,13 @@ def gen_handle_histories(rng, tier):
         h = Hist("thr-%d-%s" % (k, via), "threads")
         if via == "reader":
             f = h.file(k, "null", 2, 1)
-            h.open(0, f, "slice"); h.read(0, "borrowed", r"\(some 0 eq\)"); h.threads(0, 3, 2, k); h.read(0, "borrowed", r"\(some 1 eq\)"); h.drop(0)
+            h.open(0, f, "slice"); h.read(0, "borrowed", r"\(some 0 eq\)"); h.threads(0, 3, 2, k); h.debugpar(0); h.read(0, "borrowed", r"\(some 1 eq\)"); h.drop(0)
         else:
             h.build(0, CAT[k]); h.freeze(0, 0)
             if via == "arc":
-                h.arc(0, 1); h.clone(1, 0); h.threads(0, 3, 2, k); h.drop(1); h.threads(0, 2, 1, k)
+                h.arc(0, 1); h.clone(1, 0); h.threads(0, 3, 2, k); h.debugpar(1); h.drop(1); h.threads(0, 2, 1, k); h.debugpar(0)
             else:
-                h.threads(0, 3, 2, k); h.move(0, 1, "vec"); h.threads(1, 2, 2, k)
+                h.debugpar(0); h.threads(0, 3, 2, k); h.move(0, 1, "vec"); h.threads(1, 2, 2, k); h.debugpar(1)
         out.append(h)
     return out
 
@@ -374,7 +386,10 @@ def gen_random_history(rng, idx):
                 h.cde(datums[k], "owned")
         elif slots:
             s = rng.choice(list(slots)); k = slots[s][1]
-            h.ser(s, k, rng.randrange(8))
+            c = rng.random()
+            if c < 0.6: h.ser(s, k, rng.randrange(8))
+            elif c < 0.85: h.debug(s)
+            else: h.debugpar(s)
         if locked and rng.random() < 0.3:
             h.end(); locked.pop()
     while locked:
@@ -599,7 +614,8 @@ def run(ctx):
                     "freeze error at every node, unions in unreachable nodes; frozen schema moved through Box / Vec; Arc cloned / dropped before, "
                     "while and after a container Reader (null, deflate, snappy; slice, Cursor, BufRead) reads; reader moved between reads; "
                     "reader dropped before / after the schema clone; corrupt files; configs alive across other handles' drops; scoped threads "
-                    "through one &Schema vs sequential, several Miri seeds; values kept after all schemas are dropped; enum symbols / field "
+                    "through one &Schema vs sequential (round trips, `{:?}` of the schema, messages of failing serializations), several Miri seeds; "
+                    "`{:?}` of frozen schemas incl. cyclic ones (terminates, bounded, stable) and the same while another thread is parked inside a rendering; values kept after all schemas are dropped; enum symbols / field "
                     "names requested as &str) replayed natively and under Miri; native = Miri = model-predicted outcomes "
                     "(%d model steps, each visited state checked with live_okb)" % n_model_ops,
             "samples": samples, "violations": violations, "model_diffs": diffs, "distribution": dict(dist), "notes": notes}
